@@ -1,8 +1,11 @@
 // C10: HostTable.LookupHostTagAndProduct (host trie with splat entries, VIP table, default product)
 // vs model HostTable.v.  The tables are written as JSON files and loaded with the real loaders
 // (host_rule_conf.HostRuleConfLoad, vip_rule_conf.VipRuleConfLoad), then HostTable.Update.
-// input : [preQueries stages]  stage=[entries vips dflt queries]  entries=[[host tag product]..] vips=[[vip product]..]
-//         queries=[[host vip]..].  preQueries run on a fresh HostTable before any Update; the stages are applied to the
+// input : [preQueries stages]  stage=[entries vips dflt queries]  entries=[[host tag product]..] vips=[[text addr16 canon product]..]
+//         (text = the vip as written in the file, in any textual form; addr16/canon = net.ParseIP(text).To16()/.String(),
+//         computed by the generator for the model; the implementation is given text only)
+//         queries=[[host vipRaw vipStr]..]  vipRaw = Session.Vip as raw net.IP bytes (4- or 16-byte form, "" = nil),
+//         vipStr = argument of LookupProductByVip.  preQueries run on a fresh HostTable before any Update; the stages are applied to the
 //         SAME HostTable in order (Update, then queries): act -> reload -> act.
 // output: [preResults [stageResults..]], per query [product tag err lpProduct lpErr vpProduct vpErr]
 //         (LookupHostTagAndProduct, LookupProduct(host), LookupProductByVip(vip))
@@ -10,6 +13,7 @@ package main
 
 import (
 	"encoding/json"
+	"fmt"
 	"net"
 	"os"
 	"path/filepath"
@@ -61,10 +65,10 @@ func runQueries(ht *bfe_route.HostTable, queries hv.L) hv.Val {
 	out := hv.L{}
 	for _, q := range queries {
 		l := hv.AsList(q)
-		host, vip := hv.AsStr(l[0]), hv.AsStr(l[1])
+		host, raw, vip := hv.AsStr(l[0]), hv.AsBytes(l[1]), hv.AsStr(l[2])
 		req := &bfe_basic.Request{Session: &bfe_basic.Session{}, HttpRequest: &bfe_http.Request{Host: host}}
-		if vip != "" {
-			req.Session.Vip = net.ParseIP(vip)
+		if len(raw) > 0 {
+			req.Session.Vip = net.IP(append([]byte(nil), raw...))
 		}
 		err := ht.LookupHostTagAndProduct(req)
 		code := errCode(err)
@@ -109,7 +113,7 @@ func impl(in hv.Val) hv.Val {
 		vipMap := map[string][]string{}
 		for _, e := range vips {
 			l := hv.AsList(e)
-			vipMap[hv.AsStr(l[1])] = append(vipMap[hv.AsStr(l[1])], hv.AsStr(l[0]))
+			vipMap[hv.AsStr(l[3])] = append(vipMap[hv.AsStr(l[3])], hv.AsStr(l[0]))
 		}
 		hostConf, err := host_rule_conf.HostRuleConfLoad(writeJSON("host_rule.data", hostFile))
 		if err != nil {
@@ -123,6 +127,42 @@ func impl(in hv.Val) hv.Val {
 		stageOut = append(stageOut, runQueries(ht, queries))
 	}
 	return hv.L{pre, stageOut}
+}
+
+// addresses used as vips; "::10.0.0.1" (IPv4-compatible, not IPv4-mapped) is a near miss of 10.0.0.1
+var vipPool = []string{"10.0.0.1", "10.0.0.2", "192.168.1.9", "127.0.0.1", "255.255.255.255", "0.0.0.0",
+	"2001:db8::1", "::1", "::", "fe80::1:2", "2001:db8:0:1::", "::10.0.0.1", "2001:db8::a00:1", "::ffff:0:1"}
+
+// every textual form of the address that net.ParseIP accepts (and that denotes the same address)
+func ipForms(ip net.IP) []string {
+	b := ip.To16()
+	g := make([]int, 8)
+	for i := range g {
+		g[i] = int(b[2*i])<<8 | int(b[2*i+1])
+	}
+	join := func(f string, n int) string {
+		parts := make([]string, n)
+		for i := 0; i < n; i++ {
+			parts[i] = fmt.Sprintf(f, g[i])
+		}
+		return strings.Join(parts, ":")
+	}
+	forms := []string{ip.String(), join("%x", 8), join("%04x", 8), join("%X", 8), join("%04X", 8), strings.ToUpper(ip.String())}
+	dotted := fmt.Sprintf("%d.%d.%d.%d", b[12], b[13], b[14], b[15])
+	forms = append(forms, join("%x", 6)+":"+dotted, join("%04X", 6)+":"+dotted) // IPv4 tail notation
+	if v4 := ip.To4(); v4 != nil {
+		forms = append(forms, dotted, "::ffff:"+dotted, "::FFFF:"+dotted, "0:0:0:0:0:ffff:"+dotted, "0:0:0:0:0:FFFF:"+dotted,
+			fmt.Sprintf("::ffff:%x:%x", g[6], g[7]), fmt.Sprintf("0000:0000:0000:0000:0000:FFFF:%04X:%04X", g[6], g[7]))
+	} else if g[0] == 0 && g[1] == 0 && g[2] == 0 && g[3] == 0 && g[4] == 0 && g[5] == 0 {
+		forms = append(forms, "::"+dotted)
+	}
+	ok := forms[:0]
+	for _, f := range forms {
+		if p := net.ParseIP(f); p != nil && p.Equal(ip) {
+			ok = append(ok, f)
+		}
+	}
+	return ok
 }
 
 var words = []string{"a", "b", "com", "net", "www", "x1"}
@@ -228,17 +268,17 @@ func genStage(r *hv.Rng) (string, hv.Val, hv.L) {
 		t := p + "-t" + string(rune('0'+r.Intn(3)))
 		ents = append(ents, ent{h, t, p})
 	}
-	// vips
-	vipPool := []string{"10.0.0.1", "10.0.0.2", "192.168.1.9", "2001:db8::1", "::1"}
+	// vips: distinct address values, each written in one of its textual forms
 	var vips hv.L
 	usedVip := map[string]bool{}
-	for k := r.Intn(4); k > 0; k-- {
-		v := r.Pick(vipPool)
-		if usedVip[v] {
+	for k := r.Intn(5); k > 0; k-- {
+		ip := net.ParseIP(r.Pick(vipPool))
+		if usedVip[ip.String()] {
 			continue
 		}
-		usedVip[v] = true
-		vips = append(vips, hv.L{hv.S(v), hv.S("v" + string(rune('0'+r.Intn(3))))})
+		usedVip[ip.String()] = true
+		text := r.Pick(ipForms(ip))
+		vips = append(vips, hv.L{hv.S(text), hv.B(ip.To16()), hv.S(ip.String()), hv.S("v" + string(rune('0'+r.Intn(3))))})
 	}
 	if vips == nil {
 		vips = hv.L{}
@@ -306,11 +346,23 @@ func genStage(r *hv.Rng) (string, hv.Val, hv.L) {
 				h += ":80:1"
 			}
 		}
-		vip := ""
-		if r.Chance(1, 2) {
-			vip = r.Pick(vipPool)
+		var raw []byte
+		if r.Chance(3, 5) {
+			ip := net.ParseIP(r.Pick(vipPool))
+			raw = ip.To16()
+			if v4 := ip.To4(); v4 != nil && r.Bool() {
+				raw = v4 // the same address in its 4-byte form
+			}
 		}
-		qs = append(qs, hv.L{hv.S(h), hv.S(vip)})
+		vipStr := ""
+		if r.Chance(1, 2) {
+			ip := net.ParseIP(r.Pick(vipPool))
+			vipStr = ip.String()
+			if r.Chance(1, 4) {
+				vipStr = r.Pick(ipForms(ip)) // LookupProductByVip compares text: only the canonical form hits
+			}
+		}
+		qs = append(qs, hv.L{hv.S(h), hv.B(raw), hv.S(vipStr)})
 	}
 	es := hv.L{}
 	for _, e := range ents {
